@@ -336,6 +336,8 @@ impl Universe {
         um.push(d("ECU1", false, "a.c", false));
         um.push(d("E\u{1}U", true, "foo", false));
         um.push(d("E-U", true, "foo", false));
+        um.push(d("E.U1", true, "foo", false));
+        um.push(d("E(U1", true, "foo", false));
         um.push(d("ECU1", true, "foo", true));
         um.push(d("ECU2", true, "FOO bar baz", true));
         let dm = um.iter().enumerate().map(|(i, m)| m.to_dlt(i as u32)).collect();
@@ -1376,6 +1378,9 @@ pub fn variants(level: u8) -> Vec<Vec<Crit>> {
                 re(&format!("^{short}$")),
                 re(""),
                 re(&format!("^.{}", &a[1..2])),
+                // literal ids made of regex meta characters: as a regex the first would match `a`, the second is no regex
+                lit(&format!("{}.{}", &a[..1], &a[2..])),
+                lit(&format!("{}({}", &a[..1], &a[2..])),
             ]);
         }
         v
